@@ -36,6 +36,25 @@ theorem itemsM_ok (o : MapO) (f : V × V → R (V × V)) (P : V × V → Prop) (
   obtain ⟨r, hr, pr⟩ := mapM_ok f P kvs h
   exact ⟨r, by simp only [itemsM, pyItems, R.bind_ok, hr, R.pure_eq], pr⟩
 
+theorem pack_const (O : Oracle) (cx : Cx) (fx : Fx) (t : Ty) (h : t.constPack = true) (a b : V) :
+    pack O cx fx t a = pack O cx fx t b := by
+  cases t with
+  | tfix ts =>
+    cases ts with
+    | nil => rw [pack, pack, packIdx, packIdx]
+    | cons _ _ => simp [Ty.constPack] at h
+  | _ => simp [Ty.constPack] at h
+
+theorem unpack_const (O : Oracle) (cx : Cx) (fx : Fx) (t : Ty) (h : t.constUnpack = true) (a b : V) :
+    unpack O cx fx t a = unpack O cx fx t b := by
+  cases t with
+  | tfix ts =>
+    cases ts with
+    | nil => rw [unpack, unpack, unpackIdx, unpackIdx]
+    | cons _ _ => simp [Ty.constUnpack] at h
+  | none => rw [unpack, unpack]
+  | _ => simp [Ty.constUnpack] at h
+
 theorem basicL_of {vs : List V} (h : ∀ v ∈ vs, Basic v) : BasicL vs := by
   induction vs with
   | nil => simp [BasicL]
